@@ -37,9 +37,11 @@ import (
 	"net/http"
 	"net/netip"
 	"os"
+	"runtime"
 	"strconv"
 	"strings"
 	"sync"
+	"sync/atomic"
 	"syscall"
 	"time"
 
@@ -78,6 +80,11 @@ type Case struct {
 	// Unasserted: the contract says nothing about this address (bare IPv6 + port); it is only run to
 	// see that nothing panics: short timeout, no retry.
 	Unasserted bool `json:"unasserted"`
+	// Refuse (loop mode): nothing listens at the destination TLC expects (ExpHost/ExpPort), all other
+	// candidates do: a connection that fails must not be followed by one to another place.
+	Refuse  bool   `json:"refuse"`
+	ExpHost string `json:"exp_host"`
+	ExpPort int    `json:"exp_port"`
 }
 
 type Job struct {
@@ -424,7 +431,7 @@ func (cc *caseCtx) absHost(h string) string {
 
 func isTLS(s string) bool {
 	switch s {
-	case "tls", "tls+pipeline", "https", "h3", "quic":
+	case "tls", "tls+pipeline", "https", "h3", "quic", "doq":
 		return true
 	}
 	return false
@@ -672,6 +679,9 @@ func (cc *caseCtx) listenLoop(ctx context.Context, targets []target, ports []int
 	for _, tg := range targets {
 		for _, port := range ports {
 			tg, port := tg, port
+			if cc.c.Refuse && tg.label == cc.c.ExpHost && port == cc.c.ExpPort {
+				continue // the expected destination refuses
+			}
 			ap := netip.AddrPortFrom(tg.ip, uint16(port)).String()
 			switch scheme {
 			case "tcp", "tcp+pipeline", "tls", "tls+pipeline", "https":
@@ -731,7 +741,7 @@ func (cc *caseCtx) listenLoop(ctx context.Context, targets []target, ports []int
 						}
 					}
 				}()
-			case "quic", "h3":
+			case "quic", "doq", "h3":
 				raw, err := retryBind(func() (net.PacketConn, error) { return net.ListenPacket("udp", ap) })
 				if err != nil {
 					return cl, err
@@ -821,6 +831,25 @@ func query() []byte {
 	return b
 }
 
+// watchdog: a case that does not end (locks already held) is a harness problem, never a verdict
+func watchdog(c Case) *time.Timer {
+	wdT := 4 * time.Minute
+	if s, err := strconv.Atoi(os.Getenv("VERIF_WD_S")); err == nil && s > 0 {
+		wdT = time.Duration(s) * time.Second
+	}
+	return time.AfterFunc(wdT, func() {
+		buf := make([]byte, 4<<20)
+		n := runtime.Stack(buf, true)
+		msg := fmt.Sprintf("WATCHDOG: case %d (%s %+v refuse=%v) did not end\n%s\n", c.ID, c.Mode, c.A, c.Refuse, buf[:n])
+		os.WriteFile(fmt.Sprintf("%s/verif-drv_addr-watchdog.%d.%d.txt", os.TempDir(), os.Getpid(), c.ID), []byte(msg), 0o644)
+		fmt.Fprint(os.Stderr, msg[:min(len(msg), 3000)])
+		time.Sleep(200 * time.Millisecond)
+		os.Exit(4)
+	})
+}
+
+var flockGaveUp atomic.Bool
+
 func runOnce(c Case, timeout time.Duration, try int, sh *shared) (res Result) {
 	cc := &caseCtx{c: c, sh: sh, rng: rand.New(rand.NewSource(vh.Seed()*1000003 + int64(c.Cid)*31 + int64(c.Variant)))}
 	cc.concretize()
@@ -863,13 +892,22 @@ func runOnce(c Case, timeout time.Duration, try int, sh *shared) (res Result) {
 			defer v6Mu.Unlock()
 			// ... and across processes (another check / selftest running at the same time)
 			if f, err := os.OpenFile(os.TempDir()+"/verif-v6-loopback.lock", os.O_CREATE|os.O_RDWR, 0o666); err == nil {
-				if syscall.Flock(int(f.Fd()), syscall.LOCK_EX) == nil {
-					defer syscall.Flock(int(f.Fd()), syscall.LOCK_UN)
+				// (bounded: a wedged holder must not stall every other run for ever)
+				for i := 0; i < 900 && !flockGaveUp.Load(); i++ {
+					if syscall.Flock(int(f.Fd()), syscall.LOCK_EX|syscall.LOCK_NB) == nil {
+						defer syscall.Flock(int(f.Fd()), syscall.LOCK_UN)
+						break
+					}
+					time.Sleep(100 * time.Millisecond)
+					if i == 899 {
+						flockGaveUp.Store(true) // go on without it: binds may collide and cases get skipped
+					}
 				}
 				defer f.Close()
 			}
 			res.LockMs = time.Since(tl).Milliseconds()
 		}
+		defer watchdog(c).Stop()
 		var targets []target
 		if cc.urlIP.IsValid() {
 			targets = append(targets, target{"url", cc.urlIP})
@@ -906,7 +944,7 @@ func runOnce(c Case, timeout time.Duration, try int, sh *shared) (res Result) {
 			cand = append(cand, sh.extraPorts...)
 		}
 		for _, p := range cand {
-			if p != 0 && !seen[p] {
+			if p != 0 && p <= 65535 && !seen[p] {
 				seen[p] = true
 				ports = append(ports, p)
 			}
@@ -954,7 +992,7 @@ func runOnce(c Case, timeout time.Duration, try int, sh *shared) (res Result) {
 	case <-done:
 	case <-time.After(6 * time.Second):
 	}
-	if c.A.Scheme == "quic" || c.A.Scheme == "h3" {
+	if c.A.Scheme == "quic" || c.A.Scheme == "doq" || c.A.Scheme == "h3" {
 		// the server side learns about a completed handshake slightly later than the client
 		dl := time.Now().Add(time.Second)
 		for time.Now().Before(dl) {
@@ -1005,12 +1043,12 @@ func runCase(c Case, timeout time.Duration, sh *shared) (res Result) {
 		if c.Unasserted {
 			break
 		}
-		if res.Inconclusive == "" && !(res.Created && len(res.Obs) == 0) {
+		if res.Inconclusive == "" && !(res.Created && len(res.Obs) == 0 && !c.Refuse) {
 			break
 		}
 		timeout *= 3 // second and last attempt with a generous bound (overloaded machine)
 	}
-	ev := []map[string]any{{"ev": "Case", "a": c.A}}
+	ev := []map[string]any{{"ev": "Case", "a": c.A, "refuse": c.Refuse}}
 	switch {
 	case res.Panic != "":
 		// a panic is neither a refusal nor a connection: the trace stops after Case and the
